@@ -43,6 +43,8 @@ RULE = ('product of the bound alphabet per dimension x base setting x type; ever
         'excursion kind, outcome); non-trivial = everything except an in-range access of a 1-D base-0 '
         'array')
 ASSUMPTIONS = [
+    'sessions are created with video=\'cga\' (3x cheaper to build; variable memory does not depend '
+    'on the video adapter)',
     'an excursion with several offending subscripts (e.g. one negative and one too large) is not '
     'enumerated: the statement does not say which error wins',
     'after an out-of-range FIRST use the statement does not say whether the array now exists: only '
@@ -124,7 +126,8 @@ def run_ok(part, s, stmt, key, case):
 def run_err(part, s, stmt, allowed, key, case):
     """Run a statement that must fail with one of the allowed codes."""
     H = _H()
-    r = H.run(s, stmt)
+    # LOCATE keeps the error messages from scrolling the emulated screen (a 10x cost)
+    r = H.run(s, b'LOCATE 1,1:' + stmt)
     part.traces += 1
     if r.exc is not None:
         part.violation('%s/host-exception/%s' % (key, H.exc_key(r.exc)),
@@ -226,7 +229,7 @@ def check_shape(part, case):
     name = b'A' + t.encode()
     eff = base or 0
     cls = '%dd/base-%s/%s' % (len(dims), base_label(base), t)
-    s = H.new_session()
+    s = H.new_session(video='cga')
     if base is not None and not run_ok(part, s, b'OPTION BASE %d' % base, 'shape/option-base', case):
         return
     dimstmt = b'DIM %s(%s)' % (name, ref_str(dims))
@@ -304,7 +307,7 @@ def check_firstuse(part, case):
     name = b'U' + t.encode()
     eff = base or 0
     cls = 'firstuse/%dd/base-%s/%s/%s' % (nd, base_label(base), t, how)
-    s = H.new_session()
+    s = H.new_session(video='cga')
     if base is not None and not run_ok(part, s, b'OPTION BASE %d' % base, 'firstuse/option-base', case):
         return
     target = {'%': b'X%', '!': b'X!', '#': b'X#', '$': b'X$'}[t]
@@ -498,7 +501,7 @@ def hist_step(s, ref, op, viols):
     """Run op on both; -> (ok, label)."""
     H = _H()
     exp = ref.expected(op)
-    r = H.run(s, render_hop(op))
+    r = H.run(s, b'LOCATE 1,1:' + render_hop(op))
     if r.exc is not None:
         viols.append(('history/host-exception/%s' % H.exc_key(r.exc),
                       '%r raised %r' % (render_hop(op), r.exc)))
@@ -530,6 +533,9 @@ def hist_check_state(s, ref, viols):
                               '%s reads %r, expected %r' % (elem(name, sub).decode(), v, exp)))
         for kind, xs, codes in excursions(dims, ref.eff()):
             n += 1
+            if n % 8 == 0:
+                # keep the error messages from scrolling the emulated screen (a 10x cost)
+                _H().run(s, b'LOCATE 1,1')
             try:
                 v = s.evaluate(elem(name, xs))
             except Exception as e:
@@ -553,7 +559,7 @@ def hist_check_state(s, ref, viols):
 
 def hist_rebuild(hist):
     H = _H()
-    s = H.new_session()
+    s = H.new_session(video='cga')
     ref = HRef()
     junk = []
     for i in hist:
